@@ -365,6 +365,8 @@ class ExprMixin:
 
     def getattr(self, base, attr, frame, node):
         base = self.force(base, frame, node)
+        if isinstance(base, NoneV):
+            raise RaiseSignal("AttributeError", "'NoneType' object has no attribute %r" % attr, node, frame)
         if isinstance(base, ObjV):
             return self.obj_attr(base, attr, frame, node)
         if isinstance(base, ClassV):
